@@ -487,6 +487,33 @@ def check_cases_sep(name, header, exprs, shard, timeout):
     if any(v is None for v in vals) and not elogs: elogs.append({'log': 'no value for some cases'})
     return fails, elogs
 
+RX = {'coq': 'no_rfixes'}
+
+def fn_body(src, name):
+    m = re.search(r'\bfn %s\s*(<[^>]*>)?\s*\(' % re.escape(name), src)
+    if not m: return None
+    i = src.index('{', m.end()); d = 0
+    for j in range(i, len(src)):
+        if src[j] == '{': d += 1
+        elif src[j] == '}':
+            d -= 1
+            if d == 0: return src[i:j + 1]
+    return None
+
+def read_rfixes(repo):
+    """which repairs of do_readdir the tree contains (Model/Readdir.v `rfixes`): the re-read loop for batches that hold
+    only dot records, and a scan buffer of max(size, 4096) in the linear-scan fallback.  Read from the source, validated
+    by the model-vs-implementation comparison on every run.  -> (dict, error or None)"""
+    try:
+        src = open(os.path.join(repo, 'src/passthrough/sync_io.rs')).read()
+    except OSError as ex:
+        return None, str(ex)
+    src = re.sub(r'//[^\n]*', '', re.sub(r'/\*.*?\*/', '', src, flags=re.S))
+    body = fn_body(src, 'do_readdir')
+    if body is None: return None, 'fn do_readdir not found in src/passthrough/sync_io.rs'
+    return {'rx_refill': bool(re.search(r'while\s+[^{;]*only_dot', body)),
+            'rx_scanlen': bool(re.search(r'max\(\s*size as usize\s*,\s*4096\s*\)', body))}, None
+
 def coq_req(rec):
     return 'mk_req %d %d %d %s' % (rec['fh'], rec['size'], rec['off'], 'true' if rec['plus'] else 'false')
 
@@ -499,8 +526,8 @@ def coq_obs(rec, full, with_ino):
     return 'OOffs [%s]' % '; '.join(str(e['off']) for e in rec['ents'])
 
 def model_exprs(dirname, noopendir, fhs, hist, full, with_ino):
-    return '(hist_check %s %s %s [%s] [%s])' % (
-        'true' if full else 'false', 'true' if noopendir else 'false', dirname, '; '.join(str(h) for h in fhs),
+    return '(hist_check %s %s %s %s [%s] [%s])' % (
+        RX['coq'], 'true' if full else 'false', 'true' if noopendir else 'false', dirname, '; '.join(str(h) for h in fhs),
         ';\n '.join('(%s, %s)' % (coq_req(r), coq_obs(r, full, with_ino)) for r in hist))
 
 # ------------------------------------------------------------------ main
@@ -616,6 +643,11 @@ def run_check(tier, seed):
     findings, broken = [], []
     rng = random.Random(seed)
     quick = tier == 'quick'
+    rx, rxerr = read_rfixes(REPO)
+    if rx is None:
+        broken.append({'kind': 'translator', 'item': 'props/c16.py read_rfixes', 'error': rxerr}); rx = {'rx_refill': False, 'rx_scanlen': False}
+    RX['coq'] = '(mk_rfixes %s %s)' % ('true' if rx['rx_refill'] else 'false', 'true' if rx['rx_scanlen'] else 'false')
+    ev.cov['code_variant'] = dict(rx, decided_by=('C16_full_when_fixed (seekable hosts)' if rx['rx_refill'] else 'C16_refuted + C16_exactly_once_partial'))
     t0 = time.time()
     std_audit(ev, PROP, broken)
     log('C16: coq audit %.1fs' % (time.time() - t0)); t0 = time.time()
